@@ -202,3 +202,10 @@ package join
 //@   requires [*] allocatable: cap(opts.Input) + 1 < two63 && opts.JoinSize < two63
 //@   modifies gClock
 //@   ensures [*] result1 == nil ==> result0 != nil
+
+// ---------------------------------------------------------------- C20: ownership discipline
+//@ confine Discipline
+//@ confined interruptInterval join passAt
+//@ shared opts output release
+//@ entries (*Discipline).main
+//@ ctors New
